@@ -51,6 +51,29 @@ REGEX_SPECS = [
     ("fsz_default", "message/Message.cpp", r"static uint32 GetFlattenedSizeForFixedSizeType\(uint32 typeCode\)\s*\{[^}]*?default:\s*return\s+([^;]+?)\s*;", "str"),
     ("esz_default", "message/Message.cpp", r"uint32 Message :: GetElementSize\(uint32 type\)\s*\{[^}]*?default:\s*return\s+([^;]+?)\s*;", "str"),
     ("single_bool_flat_size", "message/Message.cpp", r"uint32 MessageField :: SingleFlattenedSize\(\) const\s*\{[^}]*?if \(_typeCode == B_BOOL_TYPE\) return\s+([^;]+?)\s*;", "str"),
+    # --- the other copies of the protocol constants (C08): C mini/micro codecs and gateways, Python codec
+    ("mini_CURRENT_PROTOCOL_VERSION", "lang/c/minimessage/MiniMessage.c", r"#define\s+CURRENT_PROTOCOL_VERSION\s+(\d+)", "int"),
+    ("mini_OLDEST_SUPPORTED_PROTOCOL_VERSION", "lang/c/minimessage/MiniMessage.c", r"#define\s+OLDEST_SUPPORTED_PROTOCOL_VERSION\s+(\d+)", "int"),
+    ("micro_CURRENT_PROTOCOL_VERSION", "lang/c/micromessage/MicroMessage.c", r"#define\s+CURRENT_PROTOCOL_VERSION\s+(\d+)", "int"),
+    ("micro_OLDEST_SUPPORTED_PROTOCOL_VERSION", "lang/c/micromessage/MicroMessage.c", r"#define\s+OLDEST_SUPPORTED_PROTOCOL_VERSION\s+(\d+)", "int"),
+    ("minigw_ENCODING_DEFAULT", "lang/c/minimessage/MiniMessageGateway.c", r"_MUSCLE_MESSAGE_ENCODING_DEFAULT\s*=\s*(\d+)\s*;", "int"),
+    ("microgw_ENCODING_DEFAULT", "lang/c/micromessage/MicroMessageGateway.c", r"_MUSCLE_MESSAGE_ENCODING_DEFAULT\s*=\s*(\d+)\s*;", "int"),
+    ("py_ENCODING_DEFAULT", "lang/python3/message_transceiver_thread.py", r"(?m)^MUSCLE_MESSAGE_ENCODING_DEFAULT\s*=\s*(\d+)", "int"),
+    ("py_CURRENT_PROTOCOL_VERSION", "lang/python3/message.py", r"(?m)^CURRENT_PROTOCOL_VERSION\s*=\s*(\d+)", "int"),
+    ("py_B_BOOL_TYPE", "lang/python3/message.py", r"(?m)^B_BOOL_TYPE\s*=\s*(\d+)", "int"),
+    ("py_B_DOUBLE_TYPE", "lang/python3/message.py", r"(?m)^B_DOUBLE_TYPE\s*=\s*(\d+)", "int"),
+    ("py_B_FLOAT_TYPE", "lang/python3/message.py", r"(?m)^B_FLOAT_TYPE\s*=\s*(\d+)", "int"),
+    ("py_B_INT64_TYPE", "lang/python3/message.py", r"(?m)^B_INT64_TYPE\s*=\s*(\d+)", "int"),
+    ("py_B_INT32_TYPE", "lang/python3/message.py", r"(?m)^B_INT32_TYPE\s*=\s*(\d+)", "int"),
+    ("py_B_INT16_TYPE", "lang/python3/message.py", r"(?m)^B_INT16_TYPE\s*=\s*(\d+)", "int"),
+    ("py_B_INT8_TYPE", "lang/python3/message.py", r"(?m)^B_INT8_TYPE\s*=\s*(\d+)", "int"),
+    ("py_B_MESSAGE_TYPE", "lang/python3/message.py", r"(?m)^B_MESSAGE_TYPE\s*=\s*(\d+)", "int"),
+    ("py_B_POINTER_TYPE", "lang/python3/message.py", r"(?m)^B_POINTER_TYPE\s*=\s*(\d+)", "int"),
+    ("py_B_POINT_TYPE", "lang/python3/message.py", r"(?m)^B_POINT_TYPE\s*=\s*(\d+)", "int"),
+    ("py_B_RECT_TYPE", "lang/python3/message.py", r"(?m)^B_RECT_TYPE\s*=\s*(\d+)", "int"),
+    ("py_B_STRING_TYPE", "lang/python3/message.py", r"(?m)^B_STRING_TYPE\s*=\s*(\d+)", "int"),
+    ("py_B_RAW_TYPE", "lang/python3/message.py", r"(?m)^B_RAW_TYPE\s*=\s*(\d+)", "int"),
+    ("py_B_ANY_TYPE", "lang/python3/message.py", r"(?m)^B_ANY_TYPE\s*=\s*(\d+)", "int"),
     # --- gateways (C03): constants that live inside the .cpp files
     ("gw_header_words", "iogateway/MessageIOGateway.cpp", r"GetHeaderSize\(\)\s*const\s*\{\s*return\s+(\d+)\s*\*\s*sizeof\(uint32\)\s*;", "int"),
     ("gw_scratch_size", "iogateway/MessageIOGateway.cpp", r"_scratchRecvBufferSizeBytes\s*=\s*(\d+)\s*;", "int"),
